@@ -577,7 +577,7 @@ Section Reader.
       else if rdtype =? 35 then Some [FFix 4; FCnt8; FCnt8; FCnt8; FNameC]
       else if zmem rdtype in_types then None
       else Some [FRest]
-    else if (rdclass =? 3) && (rdtype =? 1) then None     (* dns.rdtypes.CH.A *)
+    else if (rdclass =? 3) && (rdtype =? 1) then Some [FNameX; FFix 2]     (* dns.rdtypes.CH.A (repo commit 7eaebe9) *)
     else Some [FRest].
 
   (* TXTBase.from_wire_parser: while parser.remaining() > 0: get_counted_bytes() *)
